@@ -441,6 +441,62 @@ fn c18_num_case<F: Fl>(rng: &mut Rng, acc: &mut Acc) {
         }
     }
     acc.count("moment_lists_compared");
+    // (b) per-axis weighted sum / variance / standard deviation vs the whole-array routine applied to the lane VIEW
+    // with the same weights view, for weights of mixed sign: both run the same recurrence over the same logical
+    // sequence, so the results must be bit-identical (no oracle needed)
+    {
+        let (shape, axis) = gen_shape_axis(rng, false);
+        let nd = shape.len();
+        let n: usize = shape.iter().product();
+        let dc = rng.below(9);
+        let data: Vec<F> = gen_data::<F>(rng, n, dc);
+        let mut w: Vec<F> = (0..shape[axis]).map(|_| F::of(*rng.pick(&[1.0, 2.0, -0.5, 0.0, 3.0, -1.0, 0.25]))).collect();
+        let j = rng.below(shape[axis]);
+        w[j] = F::of(16.0); // keeps the total positive
+        let (ld, lw1) = (rlay(rng, nd), rlay(rng, 1));
+        let ed = Embedded::new(&shape, &data, ld.clone());
+        let ew = Embedded::new(&[shape[axis]], &w, lw1.clone());
+        let v = ed.view();
+        let w1 = ew.view().into_dimensionality::<Ix1>().unwrap();
+        let ddof = F::of(*rng.pick(&[0.0, 1.0, 0.5]));
+        let rs = catch(|| v.weighted_sum_axis(Axis(axis), &w1));
+        let rv = catch(|| v.weighted_var_axis(Axis(axis), &w1, ddof));
+        let rd = catch(|| v.weighted_std_axis(Axis(axis), &w1, ddof));
+        let mut rem = shape.clone();
+        rem.remove(axis);
+        let nl: usize = rem.iter().product();
+        for li in 0..nl {
+            let idx = unravel(li, &rem);
+            let lv = lane_view(&v, axis, &idx);
+            let same = |a: Option<F>, b: Option<F>| match (a, b) {
+                (Some(x), Some(y)) => x.bits() == y.bits() || (x.is_nan() && y.is_nan()),
+                _ => false,
+            };
+            let pick = |r: &Result<Result<ArrayD<F>, ndarray_stats::errors::MultiInputError>, String>| -> Option<F> {
+                match r {
+                    Ok(Ok(a)) if a.shape() == &rem[..] => Some(a[IxDyn(&idx)]),
+                    _ => None,
+                }
+            };
+            acc.evals += 3;
+            let checks: [(&str, Option<F>, Option<F>); 3] = [
+                ("weighted_sum_axis", pick(&rs), catch(|| lv.weighted_sum(&w1)).ok().and_then(|r| r.ok())),
+                ("weighted_var_axis", pick(&rv), catch(|| lv.weighted_var(&w1, ddof)).ok().and_then(|r| r.ok())),
+                ("weighted_std_axis", pick(&rd), catch(|| lv.weighted_std(&w1, ddof)).ok().and_then(|r| r.ok())),
+            ];
+            for (op, a, b) in checks {
+                if !same(a, b) {
+                    acc.violation(
+                        "axis_vs_lane_bitwise",
+                        None,
+                        J::obj(vec![("op", J::s(op)), ("ty", J::s(F::TY)), ("shape", J::us(&shape)), ("axis", J::u(axis)), ("lane", J::u(li)), ("weights", J::A(w.iter().map(|x| J::s(x.show())).collect())), ("what", J::s(format!("per-axis element {:?} but the whole-array routine on that lane gives {:?}", a, b)))]),
+                    );
+                    return;
+                }
+            }
+        }
+        acc.count("mixed_sign_weight_lane_comparisons");
+    }
     if n >= 2 && p >= 2 {
         acc.nontrivial(h64(&(F::TY, "moments", p, &shape, &ld, data.iter().map(|x| x.bits()).collect::<Vec<_>>())));
     }
